@@ -6,6 +6,7 @@ import PV.Wire
 import PV.Model.Gamma
 import PV.Spec.Wolff
 import PV.Model.History
+import PV.Model.Ops
 
 open Lean PV PV.Wire
 
@@ -79,11 +80,32 @@ def opHistory (j : Json) : Except String Json := do
     g := globalsAfter g [op]
   pure (.arr out)
 
+partial def decTree (j : Json) : Except String (T Float) :=
+  match j.getObjVal? "leaf" with
+  | .ok l => do pure (.leaf (← dec l))
+  | .error _ => match j.getObjVal? "num" with
+    | .ok x => do pure (.const (← dec x))
+    | .error _ => match j.getObjVal? "un" with
+      | .ok f => do pure (.un (← dec f) (← decTree (← field j "a")))
+      | .error _ => match j.getObjVal? "bin" with
+        | .ok f => do pure (.bin (← dec f) (← decTree (← field j "a")) (← decTree (← field j "b")))
+        | .error _ => .error "tree expected"
+
+/-- op "expr_tree": {"leaves": [Obs], "tree": T} -> {"obs": Obs} | {"num": x} | {"exc": text} -/
+def opExprTree (j : Json) : Except String Json := do
+  let leaves : List (Obs Float) ← get j "leaves"
+  let t ← decTree (← field j "tree")
+  match t.eval leaves with
+  | .ok (.obs o) => pure (obj [("obs", enc o)])
+  | .ok (.num x) => pure (obj [("num", enc x)])
+  | .error e => pure (obj [("exc", .str (reprStr e))])
+
 def dispatch (op : String) (j : Json) : Except String Json :=
   match op with
   | "gamma" => opGamma false j
   | "wolff" => opGamma true j
   | "gm_history" => opHistory j
+  | "expr_tree" => opExprTree j
   | "ping" => pure (.str "pong")
   | _ => .error s!"unknown op {op}"
 
